@@ -207,7 +207,8 @@ def evaluate_error(toks, lname, pos, ch):
     seps = dict(base_layouts(nt))[lname]
     tk = toks[:pos] + [ch] + toks[pos:]
     sp = (list(seps[:pos]) + ([" "] if nt else []) + list(seps[pos:]))[: len(tk) - 1]
-    dirs = {max(0, pos - 1): [layout.line_directive(50 + pos, "e.h", keyword=False)]}
+    # (every third marker re-bases to line 0, which cpp emits for its built-in files)
+    dirs = {max(0, pos - 1): [layout.line_directive(0 if pos % 3 == 0 else 50 + pos, "e.h", keyword=False)]}
     lay = layout.lay_out(tk, sp, dirs, filename=FILENAME, paste="space")
     tp = lay.toks[pos]
     o = core.parse_outcome(lay.text, FILENAME)
